@@ -35,6 +35,11 @@ Definition slice (s : bytes) (a b : nat) : bytes := firstn (b - a) (skipn a s).
 Definition to_i32 (n : N) : Z :=
   if n <? 2147483648 then Z.of_N n else (Z.of_N n - 4294967296)%Z.
 
+(* int64(uint64 bit pattern): the value Go computes with when a msg_id has bit 63 set
+   (unixtime >= 2^31 in the upper half) *)
+Definition to_i64 (n : N) : Z :=
+  if n <? 9223372036854775808 then Z.of_N n else (Z.of_N n - 18446744073709551616)%Z.
+
 (* ---------------------------------------------------------------------------------------- *)
 (* tl.Decoder over a bytes.Reader: a sticky error flag; a failed read restores the position
    (unread) and every later Pop returns the zero value.  bytes.Reader.Read at the end of the data
@@ -81,8 +86,14 @@ Record umsg := mkumsg { u_msgid : N; u_body : bytes }.
 Definition fields : Type := (N * N * N * N * bytes)%type.
 Definition fields_of (m : emsg) : fields := (e_salt m, e_sid m, e_msgid m, e_seq m, e_body m).
 
-(* msg_id parity test used by all three Go sites: mod := id & 3; mod != 1 && mod != 3 *)
+(* msg_id parity test used by all three Go sites: mod := id & 3; mod != 1 && mod != 3.
+   msg_ids are 64-bit PATTERNS here; Go's & on the signed int64 is two's complement, so it reads
+   the two low bits of the pattern whatever the sign: [server_parity] on the unsigned value equals
+   [go_parity] on the signed one (EnvelopeProofs.server_parity_signed).  Go's signed remainder
+   id % 4 would NOT (it is -2 for ...10 with bit 63 set). *)
 Definition server_parity (msgid : N) : bool := (msgid mod 4 =? 1) || (msgid mod 4 =? 3).
+Definition go_parity (msgid : N) : bool :=
+  let m := Z.land (to_i64 msgid) 3 in (m =? 1)%Z || (m =? 3)%Z.
 
 (* serializePacket: salt, session id, msg_id, seq_no (|1 when an ack is required), int32(len), body *)
 Definition serialize_packet (salt sid msgid seq : N) (ack : bool) (body : bytes) : bytes :=
